@@ -130,6 +130,9 @@ type Record interface {
 // Add records the Record as having being located at the given chunk with the given
 // mapping and placement status.
 func (i *Index) Add(r Record, c bgzf.Chunk, mapped, placed bool) error {
+	if i.depth > maxDepth {
+		return errors.New("csi: index depth too large")
+	}
 	// End is exclusive: the last base is at End()-1.
 	last := r.End() - 1
 	if last < r.Start() {
